@@ -128,7 +128,10 @@ def run(prog: Program, col: Collector, tier: str, refs: Optional[Refs] = None, c
     # ---------------------------------------------------------------- R06.4
     col.rule("R06.4", "Tensor declares the trailing shape of its array as event shape", floor=1)
     ti = require_func(prog, "funsor.tensor::Tensor.__init__")
-    outs = [n for n in walk_no_nested(ti.node) if isinstance(n, ast.Assign) and any(isinstance(t, ast.Name) and t.id == "output" for t in n.targets)]
+    # the output domain by role: the second argument of the base constructor call (Funsor.__init__(inputs, output, ...))
+    sup_calls = [c for c in walk_no_nested(ti.node) if isinstance(c, ast.Call) and isinstance(c.func, ast.Attribute) and c.func.attr == "__init__" and len(c.args) >= 2]
+    out_name = sup_calls[0].args[1].id if sup_calls and isinstance(sup_calls[0].args[1], ast.Name) else "output"
+    outs = [n for n in walk_no_nested(ti.node) if isinstance(n, ast.Assign) and any(isinstance(t, ast.Name) and t.id == out_name for t in n.targets)]
     ok = False
     why = "no `output = Array[dtype, data.shape[len(inputs):]]` found"
     if outs:
@@ -142,7 +145,10 @@ def run(prog: Program, col: Collector, tier: str, refs: Optional[Refs] = None, c
             why = f"output is `{norm(v)}`"
             # the inputs counted are the inputs stored
             sup = [c for c in walk_no_nested(ti.node) if isinstance(c, ast.Call) and isinstance(c.func, ast.Attribute) and c.func.attr == "__init__" and c.args]
-            ok = ok and bool(sup) and isinstance(sup[0].args[0], ast.Name) and sup[0].args[0].id == inputs_p
+            stored = sup[0].args[0].id if sup and isinstance(sup[0].args[0], ast.Name) else None
+            # the stored inputs may be the parameter itself or a local bound to OrderedDict(<parameter>) that is also what is counted
+            counted = norm(sh.slice.lower)[4:-1] if isinstance(sh, ast.Subscript) and isinstance(sh.slice, ast.Slice) and sh.slice.lower is not None and norm(sh.slice.lower).startswith("len(") else None
+            ok = ok and stored is not None and (stored == inputs_p or stored == counted)
     col.check(ok, f"{ti.fq}::output", "output = Array[dtype, data.shape[len(inputs):]] with the inputs that are stored",
               f"{why}: the declared event shape is not the array's shape after the batch dimensions of the stored inputs", ti.loc(outs[0]) if outs else ti.loc())
 
